@@ -1,5 +1,6 @@
 (** C02 Append-only: an issued index keeps reading the same item until clear. *)
-From FC Require Import Base.Res Index.IC Index.Stride Index.StrideOk Region.Region Region.History.
+From FC Require Import Base.Res Index.IC Index.Stride Index.StrideOk Region.Region Region.History Huffman.Huffman.
+From FC Require Huffman.EncoderOk Huffman.FrameOk.
 
 (** Frame: a successful push of ANY value (covered or not) keeps every valid index valid and
     reading what it read before. *)
@@ -22,3 +23,16 @@ Theorem C02_index_optimized_appends : forall o x, io_wf o ->
 Proof. exact (@io_push_spec). Qed.
 Theorem C02_index_list_appends : forall l x, il_abs (il_push l x) = il_abs l ++ [x].
 Proof. exact (@il_push_abs). Qed.
+
+(** The bit-packed codec appends into a shared partial byte (it pops the trailing byte and
+    re-emits it with the new bits behind it): every earlier index -- a bit range ending within the
+    old bit string -- still reads exactly what it read, at every alignment of the old end, for code
+    lengths up to 57 bits, whatever the decode table is; and the new index is the range right
+    behind the old bits, of length the sum of the code lengths. *)
+Theorem C02_huffman_append_only : forall h bytes bits stats v s' i,
+  EncoderOk.wfst bytes bits -> EncoderOk.covered (enc h) v ->
+  push huffman_region (HEnc h bytes bits, stats) v = Ok (s', i) ->
+  i = (bits, bits + list_sum (map (EncoderOk.clen (enc h)) v)) /\
+  forall j : nat * nat, fst j <= snd j -> snd j <= bits ->
+    read huffman_region s' j = read huffman_region (HEnc h bytes bits, stats) j.
+Proof. exact FrameOk.huffman_region_frame. Qed.
